@@ -1164,6 +1164,11 @@ class Driver:
                 s.bools["hasattr:" + name] = False
                 return [(s2, True), (s, False)]
             return [(s, CBool("hasattr"))]
+        if n == "mod:np.spacing" and len(args) == 1:
+            # the gap to the next float: a non-negative number (x > np.spacing(x) is "x is positive and not negligible")
+            sym = s.fresh("spacing")
+            s.add(Con(Lin.sym(sym), ">="))
+            return [(s, Lin.sym(sym))]
         if n == "global:myclock" or n.startswith("mod:time"):
             return [(s, Opq("clock"))]
         if n == "mod:field.fieldlist":
